@@ -22,7 +22,7 @@ def main(path):
     os.environ["AIOHTTP_NO_EXTENSIONS"] = "1"
     sys.setrecursionlimit(20000)
     with open(path) as f:
-        rec = json.load(f)
+        rec = json.load(f, object_hook=lambda d: d["__bytes__"].encode("latin1") if set(d) == {"__bytes__"} else d)
     import aiohttp
 
     assert os.path.realpath(aiohttp.__file__).startswith(os.path.realpath(REPO) + os.sep), aiohttp.__file__
